@@ -846,6 +846,12 @@ class LaunchRun(object):
                           'process ended while launch() was still finishing, and the result is a Tor whose process is gone' % (order,))
             if 'timeout' in order:
                 self.fail('C19.launch-success-after-timeout', 'launch() succeeded after the timeout had fired (milestones %r)' % (order,))
+            for p in self.peers:
+                if p.p100_delivered() and b'TAKEOWNERSHIP' not in bytes(p.conn.transport.written):
+                    self.fail('C19.success-before-ownership-requested',
+                              'launch() succeeded at a moment when TAKEOWNERSHIP had not yet been written to the control '
+                              'connection that reported 100%% (written so far: %r)' % (
+                                  bytes(p.conn.transport.written).split(b'\r\n')[-6:],))
             sim.probe('success')
             if any(p.p100_before_ack for p in self.peers):
                 sim.probe('100-before-ownership-ack')
